@@ -184,28 +184,15 @@ proof {
 }
 ''', start=m, stmt=False, ind='        ')
 
-# ---- equal
+# ---- equal: NOT verified.  Verus cannot connect the state of `self.d` after the call
+# `myers::diff_deadline(&mut NoFinishHook::new(&mut self.d), ..)` with the callee's postcondition: a mutable reference
+# stored inside a struct that is handed to generic code is not resolved back to its origin (probe: /verif/probes/
+# mutref_in_struct_unresolved.rs).  The method keeps its real body and carries the trait contract as an ASSUMED
+# contract (which, through rely_st(), includes preservation of Patience::inv); bounded stand-in: replay mode C01.
 m = o.find('fn equal(&mut self, old: usize, new: usize, len: usize)', im)
-o.after('{', '''
-let ghost pre = *vstd::prelude::old(self);
-let ghost e = Ev::Equal(old, new, len);
-let ghost rel = rel_of(self.old, self.new);
-let ghost d0 = pre.d0@; let ghost r1 = pre.d0@.rely_rel(); let ghost rs0 = pre.d0@.rely_st();
-let ghost ob = old as int; let ghost nb = new as int;
-proof {
-    reveal(step_rel);
-    lemma_mono(rel_true(), pre.rst0(), pre.hist@);
-    assert(pre.inv() && !pre.rst().fin && ob == pre.rst().oc && nb == pre.rst().nc && ob + len <= self.old_indexes@.len() && nb + len <= self.new_indexes@.len());
-}
-''', start=m, stmt=False, ind='        ')
-o.after('for (old, new) in (old..old + len).zip(new..new + len)', '''
-    invariant
-        self.base(), self.ahead(old as int, new as int), old - ob == new - nb, 0 <= old - ob <= len,
-        self.hist@ == pre.hist@, self.d0@ == pre.d0@, self.o0@ == pre.o0@, self.n0@ == pre.n0@, self.old_end == pre.old_end, self.new_end == pre.new_end,
-        self.old_indexes@ == pre.old_indexes@, self.new_indexes@ == pre.new_indexes@, self.old == pre.old, self.new == pre.new,
-        ob + len <= self.old_indexes@.len(), nb + len <= self.new_indexes@.len(),
-        rel == rel_of(self.old, self.new), d0 == pre.d0@, r1 == d0.rely_rel(), rs0 == d0.rely_st(),
-''', start=m, stmt=False)
+o.lines[m:m] = ghost('''
+#[verifier::external_body]  // assumed contract: see DESIGN.md section 5 C01 (Verus limitation: &mut stored in NoFinishHook passed to generic code)
+''', '    ')
 o.save()
 
 # =====================================================================================================
@@ -217,7 +204,24 @@ CONTRACT = '''
         seg_post(*vstd::prelude::old(d), *final(d), old, old_range, new, new_range, fin::<D>(), res.is_ok()),
 '''
 dd = o.find('pub fn diff_deadline<Old, New, D>(')
+o.lines[dd:dd] = ghost('''
+#[verifier::external_body]  // assumed contract. The body is verified as diff_deadline__shadow below up to the assertion that the user's
+// hook held by the Patience struct has received a complete valid script and its finish; that this hook state is `*final(d)`
+// (the &mut parameter is moved into the struct) is what Verus cannot resolve - see DESIGN.md section 5 C01.
+''')
+dd = o.find('pub fn diff_deadline<Old, New, D>(')
 o.before('{', CONTRACT, start=dd)
+o.after('{', '''
+let ghost ud0 = *d;
+''', start=dd, stmt=False, ind='    ')
+i = o.find('deadline,', o.find('let mut d = Replace::new(Patience {', dd))
+o.lines[i+1:i+1] = ghost('''
+hist: Ghost(Seq::empty()), d0: Ghost(ud0), s: Ghost(Seq::empty()), o0: Ghost(old_range.start as int), n0: Ghost(new_range.start as int),
+''', '        ')
+dd = o.find('pub fn diff_deadline__shadow<Old, New, D>(')
+o.before('{', '''
+    requires diff_pre(*vstd::prelude::old(d), old, old_range, new, new_range),
+''', start=dd)
 o.after('{', '''
 let ghost ud0 = *d;
 ''', start=dd, stmt=False, ind='    ')
@@ -238,6 +242,29 @@ proof {
     assert(ud0.trace() + Seq::<Ev>::empty() =~= ud0.trace());
     assert(d.inner().inv());
     assert(d.inv());
+}
+let ghost rp0 = d;
+''', '    ')
+i = o.find('Ok(())', dd)
+o.lines[i:i] = ghost('''
+proof {
+    let rp = d;
+    let ol = old_indexes@.len() as int; let nl = new_indexes@.len() as int;
+    let s1 = choose|q: Seq<Ev>| #[trigger] seg(&old_indexes, &new_indexes, q, 0, 0, ol, nl)
+        && rp.trace() == rp0.trace() + q + fin::<Replace<Patience<Old, New, D>>>()
+        && (rp0.relies() ==> rp.rely_st() == run_rel(rp0.rely_rel(), rp0.rely_st(), q + fin::<Replace<Patience<Old, New, D>>>()));
+    lemma_seg_any(rel_of(&old_indexes, &new_indexes), rp0.rely_rel(), s1, 0, 0, ol, nl, rp0.rely_st());
+    lemma_run_fin::<Replace<Patience<Old, New, D>>>(rp0.rely_rel(), rp0.rely_st(), s1);
+    reveal(step_rel);
+    assert(rp.rely_st().ok && rp.rely_st().fin);
+    assert(rp.inv() && rp.rst().fin);
+    let pt = rp.inner();
+    assert(pt.rely_st().ok);
+    assert(pt.inv());
+    // the Patience hook has seen `finish`: its history is what Replace forwarded plus Finish
+    lemma_run_fin::<Patience<Old, New, D>>(rel_true(), pt.rst0(), sent::<Patience<Old, New, D>>(rp.em_()));
+    assert(pt.rst().fin);
+    assert(pt.done());
 }
 ''', '    ')
 df = o.find('pub fn diff<Old, New, D>(')
@@ -266,76 +293,3 @@ pub proof fn lemma_uniq_len<Idx: ?Sized + Index<usize>>(items: Seq<UniqueItem<Id
 ''')
 o.save()
 
-# =====================================================================================================
-o = Overlay('/verif/contracts/patience.rs')
-im = o.find("impl<'old, 'new, 'd, Old, New, D> DiffHook for Patience")
-m = o.find('fn equal(&mut self, old: usize, new: usize, len: usize)', im)
-FRAME = '''self.hist@ == pre.hist@, self.d0@ == pre.d0@, self.o0@ == pre.o0@, self.n0@ == pre.n0@, self.old_end == pre.old_end, self.new_end == pre.new_end,
-        self.old_indexes@ == pre.old_indexes@, self.new_indexes@ == pre.new_indexes@, self.old == pre.old, self.new == pre.new, self.deadline == pre.deadline,
-        rel == rel_of(self.old, self.new), d0 == pre.d0@, r1 == d0.rely_rel(), rs0 == d0.rely_st(), self.frame_ok(),'''
-i = o.find('let b0 = self.new_current;', m)
-o.lines[i+1:i+1] = ghost('''
-let ghost io = self.old_indexes@[old as int].idx(); let ghost inn = self.new_indexes@[new as int].idx();
-proof { assert(self.ahead(old as int, new as int)); assert(a0 <= io && b0 <= inn); }
-''', '            ')
-o.after('&& self.new[self.new_current] == self.old[self.old_current]', '''
-    invariant
-        ''' + FRAME + '''
-        0 <= old < self.old_indexes@.len(), 0 <= new < self.new_indexes@.len(),
-        io == self.old_indexes@[old as int].idx(), inn == self.new_indexes@[new as int].idx(),
-        a0 <= self.old_current <= io, b0 <= self.new_current <= inn, self.old_current - a0 == self.new_current - b0,
-        self.o0@ <= a0, self.n0@ <= b0, self.fed(a0 as int, b0 as int),
-        forall|i: int| 0 <= i < self.old_current - a0 ==> #[trigger] relk(rel, a0 as int, b0 as int, i),
-    decreases io - self.old_current,
-''', start=m, stmt=False)
-w = o.find('self.old_current += 1;', m)
-o.lines[w:w] = ghost('''
-broadcast use {axiom_pure_index, axiom_pure_eq};
-proof { assert(relk(rel, a0 as int, b0 as int, self.old_current - a0)); }
-''', '                ')
-# the equal call
-i = o.find('self.d.equal(a0, b0, self.old_current - a0)?;', m)
-o.lines[i:i] = ghost('''
-let ghost e1 = Ev::Equal(a0, b0, (self.old_current - a0) as usize);
-proof { if d0.relies() { pre_call(rel, r1, self.s@, e1, self.o0@, self.n0@, a0 as int, b0 as int, rs0); } }
-''', '                ')
-j = o.find('self.d.equal(a0, b0, self.old_current - a0)?;', m)
-o.lines[j+1:j+1] = ghost('''
-proof {
-    post_call(rel, r1, self.s@, e1, self.o0@, self.n0@, a0 as int, b0 as int, rs0);
-    assert((d0.trace() + self.s@).push(e1) =~= d0.trace() + self.s@.push(e1));
-    self.s@ = self.s@.push(e1);
-}
-''', '                ')
-i = o.find('let mut no_finish_d = NoFinishHook::new(&mut self.d);', m)
-o.lines[i:i] = ghost('''
-proof { assert(self.fed(self.old_current as int, self.new_current as int)); }
-let ghost dm = *self.d; let ghost sm = self.s@;
-proof { if d0.relies() { lemma_seg_any(rel, r1, sm, self.o0@, self.n0@, self.old_current as int, self.new_current as int, rs0); lemma_mono(r1, rs0, sm); } }
-''', '            ')
-i = o.find('self.old_current = self.old_indexes[old].original_index();', m)
-o.lines[i:i] = ghost('''
-proof {
-    let d1 = *self.d;
-    let s2 = choose|q: Seq<Ev>| #[trigger] seg(self.old, self.new, q, self.old_current as int, self.new_current as int, io as int, inn as int)
-        && d1.trace() == dm.trace() + q + Seq::<Ev>::empty() && (dm.relies() ==> d1.rely_st() == run_rel(dm.rely_rel(), dm.rely_st(), q + Seq::<Ev>::empty()));
-    lemma_seg_concat(rel, sm, s2, self.o0@, self.n0@, self.old_current as int, self.new_current as int, io as int, inn as int);
-    lemma_run_concat(r1, rs0, sm, s2);
-    assert(s2 + Seq::<Ev>::empty() =~= s2);
-    assert(d0.trace() + sm + s2 + Seq::<Ev>::empty() =~= d0.trace() + (sm + s2));
-    self.s@ = sm + s2;
-}
-''', '            ')
-i = o.find('self.new_current = self.new_indexes[new].original_index();', m)
-o.lines[i+1:i+1] = ghost('''
-proof { assert(self.fed(io as int, inn as int)); assert(self.ahead(old as int + 1, new as int + 1)); }
-''', '            ')
-i = o.find('Ok(())', m)
-o.lines[i:i] = ghost('''
-proof {
-    self.hist@ = self.hist@.push(e);
-    lemma_run_push(rel_true(), pre.rst0(), pre.hist@, e);
-    assert(self.rst() == step_rel(rel_true(), pre.rst(), e));
-}
-''', '        ')
-o.save()
